@@ -1645,6 +1645,14 @@ MA('C04', 'functional composition flagged linear by the functional alone', FUNF,
    'Functional.__init__(self, space=op.domain, linear=func.is_linear and op.is_linear, grad_lipschitz=np.nan)',
    'Functional.__init__(self, space=op.domain, linear=func.is_linear, grad_lipschitz=np.nan)',
    'R2')
+M('C17', 'element copies arrays with negative strides', NPYT,
+  "            if not arr.flags.writeable:",
+  "            if not arr.flags.writeable or min(arr.strides, default=0) < 0:",
+  'views')
+M('C17', 'binary legacy wrapper drops the ufunc keywords', 'odl/util/ufuncs.py',
+  "                    ufunc, '__call__', self.elem, x2, out=(out,), **kwargs)",
+  "                    ufunc, '__call__', self.elem, x2, out=(out,))",
+  'x.ufuncs.add')
 M('C15', 'element from a callable no longer owns its data (regression)', 'odl/discr/discr_space.py',
   "                sampled = np.array(sampled, copy=True)",
   "                pass", 'C15-R4c')
